@@ -1,199 +1,29 @@
 """C14 — simulations leave scenes, scenarios and global state untouched, even on failure.
-Proof layer: coq/Properties/C14.v (scene_untouched for every op history and exit, overrides undone,
-state reset).  Correspondence: generated dynamic programs with faults injected at every kind of
-point, run on the real code; the logged history is replayed through the model by the Coq kernel
-(vm_compute) and every snapshot must agree; oracles: scene before == after, veneer globals reset,
-re-run equality, later use == fresh process."""
+Proof layer: coq/Properties/C14.v (scene untouched for every op history and exit over a TREE of running
+scenarios, created objects, namespaces; every override undone when its scenario stops; state reset).
+Correspondence: generated dynamic programs with faults injected at every kind of point, run on the real
+code three times per scene; the logged histories are replayed through the model by the Coq kernel
+(vm_compute) and every snapshot must agree; oracles: scene before == after, interpreter globals ==
+fresh process, re-run equality, override-undone spec, later use (several probe programs) == fresh process."""
 import concurrent.futures as cf
 import json
 import os
+import re
 import sys
 
 sys.path.insert(0, os.path.dirname(os.path.abspath(__file__)))
 import common
 from common import Check
+import c14_gen as G
 
 PID = "C14"
-PROPS = ["foo", "bar", "baz"]
+NOBJ, NP = 3, 5
+WORKERS = int(os.environ.get("VERIF_WORKERS", "6"))
 
-PRELUDE = '''import builtins
-import scenic.syntax.veneer as _V
-LOG = builtins.VERIF_C14_LOG
-PROPS = ['foo', 'bar', 'baz']
-def objs():
-    return simulation().objects[:2]
-def rec(kind, *args):
-    LOG.append([kind, *args, [[getattr(o, p) for p in PROPS] + [o.position.y] for o in objs()]])
-def depth():
-    return len(_V.runningScenarios)
-def boom(t):
-    if simulation().currentTime >= t:
-        raise RuntimeError("injected in record/condition")
-    return 0
-'''
-
-
-def gen_items(rng, depth, nsubs, in_setup=False, allow_fail=True, fail_here=None):
-    items = []
-    n = rng.randint(1, 5)
-    for _ in range(n):
-        k = rng.choice(["W", "O", "O", "wait", "do", "W"])
-        if in_setup and k in ("wait", "do"):
-            k = "O"
-        if k == "do" and (depth >= 2 or nsubs == 0):
-            k = "wait"
-        if k in ("W", "O"):
-            items.append([k, rng.randint(0, 1), rng.randint(0, 2), rng.randint(-9, 99)])
-        elif k == "wait":
-            items.append(["wait"])
-        else:
-            items.append(["do", rng.randrange(nsubs)])
-    return items
-
-
-def gen_directed(rng):
-    """Nested scenarios overriding the SAME property of the same object; the outer one is stopped from
-    outside (time limit / terminate) while the inner one is still running; the parent keeps reading."""
-    o, p = rng.randint(0, 1), rng.randint(0, 2)
-    inner = dict(setup=[["O", o, p, rng.randint(200, 299)]] + gen_items(rng, 1, 0, in_setup=True)[:2],
-                 compose=[["wait"]] * 5)
-    mid_setup = [["O", o, p, rng.randint(300, 399)]] + gen_items(rng, 1, 0, in_setup=True)[:2]
-    if rng.random() < 0.5:
-        mid_setup = mid_setup[1:] + mid_setup[:1]
-    mid = dict(setup=mid_setup, compose=[["wait"]] * rng.randint(0, 1) + [["do", 1]] + [["wait"]] * 3, term_after=rng.randint(1, 3))
-    main = gen_items(rng, 0, 0)[:2] + [["do", 0]] + [["wait"], ["W", 1 - o, p, 5], ["wait"]] + gen_items(rng, 0, 0)[:2]
-    beh = None if rng.random() < 0.5 else [["wait"], ["W", 0, rng.randint(0, 2), 150], ["wait"]]
-    fault = rng.choice(["none", "none", "raise-main", "reject-main", "sim-step", "terminate-main"])
-    return dict(main=main, subs=[mid, inner], beh=beh, fault=fault, fault_pos=rng.randint(3, 8), fault_step=rng.randint(2, 4),
-                raise_guard=True, directed=True)
-
-
-def gen_program(rng, idx):
-    if idx % 4 == 3:
-        return gen_directed(rng)
-    nsubs = rng.randint(0, 2)
-    subs = []
-    for k in range(nsubs):
-        # sub k may only invoke subs with larger index (no recursion)
-        setup = gen_items(rng, 1, 0, in_setup=True)
-        comp = [it if it[0] != "do" else ["do", rng.randrange(k + 1, nsubs)] if k + 1 < nsubs else ["wait"]
-                for it in gen_items(rng, 1, nsubs)]
-        sub = dict(setup=setup, compose=comp)
-        if rng.random() < 0.4:
-            # the scenario is stopped from outside (time limit) while its compose block - and possibly a
-            # sub-scenario it invoked - is still running
-            sub["term_after"] = rng.randint(1, 3)
-            sub["compose"] = comp + [["wait"]] * 4
-        subs.append(sub)
-    main = gen_items(rng, 0, nsubs) + [["wait"]] + gen_items(rng, 0, nsubs)
-    beh = None
-    if rng.random() < 0.6:
-        beh = [rng.choice([["W", 0, rng.randint(0, 2), rng.randint(100, 199)], ["wait"]]) for _ in range(rng.randint(1, 5))]
-    # where the run ends abnormally
-    fault = rng.choice(["none", "none", "raise-main", "raise-sub-setup", "raise-sub-compose", "raise-behavior",
-                        "reject-main", "reject-sub", "guard", "monitor", "record", "sim-step", "sim-readback",
-                        "sim-actions", "sim-create", "terminate-main", "terminate-sub", "reject-behavior"])
-    prog = dict(main=main, subs=subs, beh=beh, fault=fault, fault_pos=rng.randint(0, 6), fault_step=rng.randint(0, 3),
-                raise_guard=rng.random() < 0.5)
-    return prog
-
-
-def fail_lines(kind):
-    if kind == "raise":
-        return ['rec("Fail")', 'raise RuntimeError("injected")']
-    if kind == "reject":
-        return ['rec("Fail")', "require False"]
-    if kind == "terminate":
-        return ["terminate"]
-    raise ValueError(kind)
-
-
-def emit_items(items, ind, fail=None, fail_pos=None, self_obj=False):
-    L = []
-    pad = " " * ind
-    for i, it in enumerate(items):
-        if fail and fail_pos == i:
-            L += [pad + l for l in fail_lines(fail)]
-        if it[0] == "W":
-            tgt = "self" if self_obj else f"objs()[{it[1]}]"
-            L.append(f"{pad}{tgt}.{PROPS[it[2]]} = {it[3]}")
-            L.append(f'{pad}rec("W", {it[1]}, {it[2]}, {it[3]})')
-        elif it[0] == "O":
-            L.append(f"{pad}override objs()[{it[1]}] with {PROPS[it[2]]} {it[3]}")
-            L.append(f'{pad}rec("O", {it[1]}, {it[2]}, {it[3]})')
-        elif it[0] == "wait":
-            L.append(pad + "wait")
-        elif it[0] == "do":
-            L.append(f"{pad}do Sub{it[1]}()")
-            L.append(f'{pad}rec("Depth", depth())')
-    if fail and fail_pos is not None and fail_pos >= len(items):
-        L += [pad + l for l in fail_lines(fail)]
-    if not L:
-        L.append(pad + "pass")
-    return L
-
-
-def to_scenic(prog):
-    f = prog["fault"]
-    L = [PRELUDE]
-    if prog["beh"] is not None:
-        L.append("behavior B():")
-        if f == "guard":
-            L.append("    invariant: self.baz < 1000")
-        bf = {"raise-behavior": "raise", "reject-behavior": "reject"}.get(f)
-        body = emit_items(prog["beh"], 4, fail=bf, fail_pos=prog["fault_pos"] if bf else None, self_obj=True)
-        if f == "guard":
-            body += ["    self.baz = 5000", '    rec("W", 0, 2, 5000)', "    wait"]
-        L += body
-        L += ["    while True:", "        wait"]
-    if f == "monitor":
-        L += ["monitor M():", f"    for i in range({prog['fault_step']}):", "        wait", '    rec("Fail")', '    raise RuntimeError("injected in monitor")']
-    for k, s in enumerate(prog["subs"]):
-        L.append(f"scenario Sub{k}():")
-        L.append("    setup:")
-        L.append('        rec("Push")')
-        if s.get("term_after"):
-            L.append(f"        terminate after {s['term_after']} steps")
-        L += emit_items(s["setup"], 8, fail="raise" if f == "raise-sub-setup" and k == 0 else None, fail_pos=prog["fault_pos"])
-        L.append("    compose:")
-        sf = {"raise-sub-compose": "raise", "reject-sub": "reject", "terminate-sub": "terminate"}.get(f) if k == 0 else None
-        L += emit_items(s["compose"], 8, fail=sf, fail_pos=prog["fault_pos"] if sf else None)
-    L.append("scenario Main():")
-    L.append("    setup:")
-    L.append("        ego = new Object at (0, 0), with foo 1, with bar 2, with baz 3, with allowCollisions True" + (", with behavior B" if prog["beh"] is not None else ""))
-    L.append("        other = new Object at (30, 0), with foo 11, with bar 12, with baz 13, with allowCollisions True")
-    if f == "monitor":
-        L.append("        require monitor M()")
-    if f == "record":
-        L.append(f"        record boom({prog['fault_step']}) as r")
-    L.append("    compose:")
-    mf = {"raise-main": "raise", "reject-main": "reject", "terminate-main": "terminate"}.get(f)
-    L += emit_items(prog["main"], 8, fail=mf, fail_pos=prog["fault_pos"] if mf else None)
-    L += ["        while True:", "            wait"]
-    return "\n".join(L) + "\n"
-
-
-PROBE = PRELUDE + '''
-behavior P():
-    while True:
-        take Range(0, 1)
-        self.foo = DiscreteRange(0, 5)
-        rec("W", 0, 0, self.foo)
-scenario SubP():
-    setup:
-        override objs()[1] with bar 40
-    compose:
-        wait
-scenario Main():
-    setup:
-        ego = new Object at (Range(-1, 1), 0), with foo 1, with bar 2, with baz 3, with behavior P, with allowCollisions True
-        other = new Object at (30, Range(1, 2)), with foo 11, with bar 12, with baz 13, with allowCollisions True
-        require ego.position.x > -0.9
-    compose:
-        do SubP()
-        wait
-        wait
-'''
+HEADER = ("From Coq Require Import ZArith List Bool.\nFrom Scenic Require Import C14.SimState.\nImport ListNotations.\nOpen Scope Z_scope.\n"
+          "Definition select (idx:list nat) (l:list (list (list Z))) := map (fun i => nth i l []) idx.\n"
+          "Definition eqb3 (a b:list (list (list Z))) : bool := if list_eq_dec (list_eq_dec (list_eq_dec Z.eq_dec)) a b then true else false.\n"
+          "Definition stale_v := {| proxies_dropped_first := false; first_only := false; own_before_subs := false; stale_top := true |}.\n")
 
 
 def zlit(x):
@@ -201,188 +31,369 @@ def zlit(x):
     return f"({x})" if x < 0 else str(x)
 
 
-def coq_case(name, before, ops, expected, idxs):
-    tbl = "[" + "; ".join("[" + "; ".join(zlit(v) for v in row) + "]" for row in before) + "]"
-    opl = []
-    for o in ops:
-        if o[0] in ("W", "O"):
-            opl.append(f"{'Write' if o[0] == 'W' else 'Override'} {o[1]}%nat {o[2]}%nat {zlit(o[3])}")
-        else:
-            opl.append(o[0])
-    exp = "[" + "; ".join("[" + "; ".join("[" + "; ".join(zlit(v) for v in row) + "]" for row in obs) + "]" for obs in expected) + "]"
-    return (f"Definition ops_{name} : list op := [{'; '.join(opl)}].\n"
-            f"Definition exp_{name} : list (list (list Z)) := {exp}.\n"
-            f"Lemma case_{name} : select [{'; '.join(str(i) + '%nat' for i in idxs)}] (trace fixed ops_{name} (init (fun o p => nth p (nth o {tbl} []) 0)) 2 4) = exp_{name}.\n"
-            f"Proof. vm_compute. reflexivity. Qed.\n")
+def zrow(row):
+    return "[" + "; ".join(zlit(v) for v in row) + "]"
+
+
+def op_coq(o):
+    k = o[0]
+    if k == "Write":
+        return f"Write {o[1]}%nat {o[2]}%nat {zlit(o[3])}"
+    if k == "Override":
+        return f"Override {o[1]}%nat {o[2]}%nat {o[3]}%nat {zlit(o[4])}"
+    if k == "Start":
+        return f"Start {o[1]}%nat {o[2]}%nat"
+    if k == "Stop":
+        return f"Stop {o[1]}%nat"
+    if k == "Create":
+        return f"Create {o[1]}%nat {zrow(o[2])}"
+    if k == "NsWrite":
+        return f"NsWrite {o[1]}%nat {zlit(o[2])}"
+    if k == "NsBind":
+        return "NsBind [" + "; ".join(f"{n}%nat" for n in o[1]) + "]"
+    return k
+
+
+def coq_bool(name, variant, before, gs, ops, expected, idxs):
+    """a boolean: does the model's trace, observed at idxs, equal the implementation's snapshots?"""
+    tbl = "[" + "; ".join(zrow(r) for r in before[:-1]) + "]"
+    g0 = zrow(before[-1])
+    exp = "[" + "; ".join("[" + "; ".join(zrow(r) for r in obs) + "]" for obs in expected) + "]"
+    return (f"Definition ops_{name} : list op := [{'; '.join(op_coq(o) for o in ops)}].\n"
+            f"Definition b_{name} : bool := eqb3 (select [{'; '.join(str(i) + '%nat' for i in idxs)}] "
+            f"(trace {variant} ops_{name} (init (fun o p => nth p (nth o {tbl} []) 0) (fun n => nth n {g0} 0) (fun n => nth n {zrow(gs)} 0)) {NOBJ} {NP})) {exp}.\n")
+
+
+def eval_bools(fname, defs, names):
+    """kernel evaluation (vm_compute) of the booleans; returns {name: bool} or None on failure"""
+    out = {}
+    text = HEADER + "\n".join(defs) + "\nEval vm_compute in [" + "; ".join("b_" + n for n in names) + "].\n"
+    ok, res = common.run_coq_cases(fname, text)
+    if not ok:
+        return None, res
+    m = re.search(r"=\s*\[(.*?)\]\s*:\s*list bool", res, re.S)
+    vals = re.findall(r"true|false", m.group(1)) if m else []
+    if len(vals) != len(names):
+        return None, res
+    return {n: v == "true" for n, v in zip(names, vals)}, res
+
+
+def ints(s):
+    return [[int(v) for v in row] for row in s]
+
+
+def all_int(s):
+    return all(float(v) == int(v) for row in s for v in row)
+
+
+def to_model(log, before, after):
+    """turn a logged history into model operations + the snapshots to compare; None if not integral"""
+    mops = [["Begin"]]
+    exp = [None]  # filled by the caller: after Begin the objects read the scene, the globals the sample
+    idxs = [0]
+    known, parent, order = {0}, {0: 0}, []
+    prev_snap = before
+    holders = {}  # spec oracle state: (o,p) -> dict(base=, ids=[...], dirty=bool, all=[...])
+    spec_fail = None
+    for l in log:
+        kind, alive, snap = l[0], l[-2], l[-1]
+        if not all_int(snap):
+            return None
+        stopped = sorted(k for k in known if k not in alive)
+        freed = []
+        if stopped:
+            if kind == "Final":
+                mops.append(["StopAll"])
+            else:
+                for k in stopped:
+                    if k == 0 or parent.get(k) not in stopped:
+                        mops.append(["Stop", k])
+            known -= set(stopped)
+            for key, h in holders.items():
+                if h["ids"] and all(i in stopped for i in h["ids"]):
+                    freed.append(key)
+                h["ids"] = [i for i in h["ids"] if i not in stopped]
+        touched = None
+        if kind == "W":
+            if float(l[3]) != int(l[3]):
+                return None
+            mops.append(["Write", l[1], l[2], int(l[3])])
+            touched = (l[1], l[2])
+            if touched in holders and holders[touched]["ids"]:
+                holders[touched]["dirty"] = True
+        elif kind == "O":
+            mops.append(["Override", l[1], l[2], l[3], int(l[4])])
+            touched = (l[2], l[3])
+            h = holders.get(touched)
+            if h is None or not h["ids"]:
+                h = holders[touched] = dict(base=prev_snap[l[2]][l[3]] if l[2] < NOBJ else None, ids=[], dirty=False, all=[])
+            if l[1] not in h["ids"]:
+                h["ids"].append(l[1])
+                h["all"].append(l[1])
+        elif kind == "Start":
+            mops.append(["Start", l[1], l[2]])
+            parent[l[1]] = l[2]
+        elif kind == "SetupDone":
+            known.add(l[1])
+        elif kind == "C":
+            mops.append(["Create", l[1], [int(v) for v in l[2]]])
+        elif kind == "N":
+            mops.append(["NsWrite", l[1], int(l[2])])
+        elif kind == "NB":
+            mops.append(["NsBind", list(l[1])])
+        idxs.append(len(mops) - 1)
+        exp.append(ints(snap))
+        # spec oracle: once every scenario that overrode (o,p) has stopped (and nobody assigned it in
+        # between), it reads the value it had before the first of those overrides
+        for key in freed:
+            h = holders[key]
+            if key != touched and not h["dirty"] and h["base"] is not None and snap[key[0]][key[1]] != h["base"] and spec_fail is None:
+                def anc(a, b):  # a is an ancestor of (or equal to) b
+                    while True:
+                        if a == b:
+                            return True
+                        if b == 0 or b not in parent:
+                            return False
+                        b = parent[b]
+                par = any(not anc(a, b) and not anc(b, a) for a in h["all"] for b in h["all"])
+                spec_fail = dict(obj=key[0], prop=key[1], expected=h["base"], got=snap[key[0]][key[1]], overriding_scenarios=h["all"],
+                                 parallel_siblings=par)
+            if not h["ids"]:
+                h["dirty"] = False
+        prev_snap = snap
+    mops.append(["Finish"])
+    idxs += [len(mops) - 1, len(mops)]
+    exp.append(ints(after))
+    exp.append(ints(after))
+    return mops, exp, idxs, spec_fail
 
 
 def main():
     c = Check(PID, "proof")
-    c.cov["rule"] = ("generated dynamic programs (nested sub-scenarios with overrides in setup and compose blocks, attribute "
-                     "assignments by compose blocks and a behavior, simulator write-back) with a fault (exception, rejection, guard "
-                     "violation, terminate, simulator failure) injected at a random point of a random kind; the logged history is "
-                     "replayed through the Coq model; non-trivial = the history contains an override or a write and is distinct by hash of (history, exit)")
+    c.cov["rule"] = ("generated dynamic programs (a tree of sub-scenarios: nested and PARALLEL siblings, `do ... for n steps`, time limits; overrides "
+                     "in setup/compose blocks and from behaviours, override of `behavior`; assignments by compose blocks, behaviours, actions "
+                     "(Action.applyTo) and the simulator; objects created in sub-scenario setup blocks; globals assigned by behaviours / rebound by "
+                     "requirement closures; 2D and 3D mode) with one fault out of ~40 kinds (exception, BaseException, rejection, guard violation, "
+                     "terminate [simulation], simulator failure, failing compile) injected at a random point; each scene is simulated three times "
+                     "(same seed twice, then a different course); every logged history is replayed through the Coq model; non-trivial = the "
+                     "history contains an override or a write and is distinct by hash of (history, exit)")
     common.ensure_parser()
     if not c.proofs():
         c.finish()
     quick = c.tier == "quick"
-    nprog = 96 if quick else 4000
+    nprog = int(os.environ.get("VERIF_C14_N", 96 if quick else 3000))
     rng = c.rng
     progs = []
     cdir = os.path.join(common.VERIF, "corpus", PID)
     if os.path.isdir(cdir):
         for f in sorted(os.listdir(cdir)):
             if f.endswith(".json"):
-                progs.append(json.load(open(os.path.join(cdir, f))))
+                p = json.load(open(os.path.join(cdir, f)))
+                if "nsreq" in p:
+                    progs.append(p)
     for i in range(nprog):
-        p = gen_program(rng, i)
-        progs.append(p)
+        progs.append(G.gen_program(rng, i))
     jobs = []
     for i, p in enumerate(progs):
         f = p["fault"]
-        job = dict(name=f"p{i}", src=to_scenic(p), seed=rng.randint(0, 10 ** 6), steps=rng.randint(4, 9), raise_guard=p["raise_guard"], prog=p)
-        if f.startswith("sim-"):
-            job["sim_fault"] = [{"sim-step": "step", "sim-readback": "readback", "sim-actions": "actions", "sim-create": "create"}[f], p["fault_step"]]
+        job = dict(name=f"p{i}", src=G.to_scenic(p), seed=rng.randint(0, 10 ** 6), steps=rng.randint(4, 9), raise_guard=p["raise_guard"],
+                   mode2D=bool(p.get("mode2D")), prog=p)
+        if f in G.SIM_FAULTS:
+            job["sim_fault"] = [G.SIM_FAULTS[f], p["fault_step"]]
         jobs.append(job)
     if c.replay:
         body = json.load(open(c.replay))
         if "job" in body.get("case", {}):
             jobs = [body["case"]["job"]]
-    # every worker process runs: probe alone first?  No: the fresh-process reference is computed in its own process.
-    probe = dict(name="probe", probe=True, src=PROBE, seed=4242, steps=6)
-    ref = common.run_impl("impl_c14.py", dict(programs=[probe]))["results"][0]
-    nw = min(common.NCPU, 12)
+    probes = G.probes()
+    tmp = os.path.join(common.WORK if os.path.isdir(common.WORK) else "/tmp", "c14")
+    os.makedirs(tmp, exist_ok=True)
+    env = dict(VERIF_C14_TMP=tmp)
+    nw = max(1, min(WORKERS, len(jobs)))
     chunks = [jobs[i::nw] for i in range(nw)]
-    chunks = [ch for ch in chunks if ch]
-    results = []
 
-    def work(ch):
-        # interleave the probe after every few programs: later use of the same process
-        seq = []
+    def fresh(pr):
+        return common.run_impl("impl_c14.py", dict(programs=[dict(name="state0", state=True), pr]), extra_env=env)["results"]
+
+    def work(kch):
+        # interleave the probes after every few programs: later use of the same process
+        k0, ch = kch
+        seq = [dict(name="state0", state=True)]
+        npb = 0
         for k, j in enumerate(ch):
             seq.append({k2: v for k2, v in j.items() if k2 != "prog"})
             if k % 4 == 3 or k == len(ch) - 1:
-                seq.append(dict(probe, name=f"probe-after-{j['name']}"))
-        return common.run_impl("impl_c14.py", dict(programs=seq), timeout=7000)["results"]
+                pr = probes[(k0 + npb) % len(probes)]
+                npb += 1
+                seq.append(dict(pr, name=f"{pr['name']}-after-{j['name']}"))
+        return common.run_impl("impl_c14.py", dict(programs=seq), timeout=7000, extra_env=env)["results"]
 
-    with cf.ThreadPoolExecutor(len(chunks)) as ex:
-        for r in ex.map(work, chunks):
-            results += r
+    with cf.ThreadPoolExecutor(WORKERS) as ex:
+        fut_ref = [ex.submit(fresh, pr) for pr in probes]
+        fut_work = [ex.submit(work, kc) for kc in enumerate(chunks)]
+        refs = {}
+        state0 = None
+        for pr, fu in zip(probes, fut_ref):
+            rr = fu.result()
+            state0 = rr[0]["state"]
+            refs[pr["name"]] = rr[1]
+            if rr[1].get("veneer_after") != state0:
+                c.violation("veneer", "interpreter state after a probe in a fresh process differs from the state before it",
+                            dict(probe=pr["name"], diff=state_diff(rr[1].get("veneer_after"), state0), diff_json=json.dumps(state_diff(rr[1].get("veneer_after"), state0), sort_keys=True)))
+        results = []
+        for fu in fut_work:
+            results += fu.result()
     by = {j["name"]: j for j in jobs}
-    coq_cases = []
-    case_jobs = {}
+    defs, names, case_info = [], [], {}
     last_job = None
     for r in results:
         if "crash" in r:
             c.violation("harness", "implementation driver crashed", dict(crash=r["crash"]), no_input=True)
             continue
-        if r["name"].startswith("probe"):
+        if r["name"] == "state0":
+            if r["state"] != state0:
+                c.violation("harness", "two fresh processes start in different states", dict(diff=state_diff(r["state"], state0)), no_input=True)
+            continue
+        if "probe" in r:
+            pname = r["name"].split("-after-")[0]
+            ref = refs[pname]
             c.count(n=1)
-            c.hist("probe-after-run")
+            c.hist("probe:" + pname)
             if r["probe"] != ref["probe"]:
                 c.violation("later-use", "compile/generate/simulate after earlier runs differs from a fresh process",
-                            dict(after=r["name"], got=r["probe"], fresh=ref["probe"], job=last_job))
-            if r["veneer_after"] != ref["veneer_after"]:
-                c.violation("veneer", "veneer state differs from a fresh process after a probe", dict(got=r["veneer_after"], fresh=ref["veneer_after"]))
+                            dict(after=r["name"], got=shorten(r["probe"]), fresh=shorten(ref["probe"]), job=last_job))
+            if r["veneer_after"] != state0:
+                c.violation("veneer", "interpreter global state differs from a fresh process after a probe",
+                            dict(after=r["name"], diff=state_diff(r["veneer_after"], state0), diff_json=json.dumps(state_diff(r["veneer_after"], state0), sort_keys=True), job=last_job))
             continue
         job = by[r["name"]]
         last_job = job
+        fault = job["prog"]["fault"]
+        c.hist("fault:" + fault)
+        c.hist("mode2D" if job["mode2D"] else "mode3D")
         if "skip" in r:
-            c.hist("skip")
-            c.violation("harness", "generated program does not compile", dict(job=job, why=r["skip"]), no_input=True)
+            if fault in G.COMPILE_FAULTS:
+                c.count(("compile-fault", fault, r["skip"][:60]), nontrivial=True)
+                c.hist("compile-failed-as-injected")
+                if r["veneer_after"] != state0:
+                    c.violation("veneer", "interpreter global state not reset after a failing compilation",
+                                dict(job=job, diff=state_diff(r["veneer_after"], state0), diff_json=json.dumps(state_diff(r["veneer_after"], state0), sort_keys=True), why=r["skip"]))
+            else:
+                c.violation("harness", "generated program does not compile", dict(job=job, why=r["skip"]), no_input=True)
             continue
+        if fault in G.COMPILE_FAULTS:
+            c.violation("harness", "compile fault did not fail", dict(job=job), no_input=True)
         log = r["log"]
-        ops = [l[:-1] for l in log]
-        key = (json.dumps(ops), r["outcome"], job["prog"]["fault"])
+        ops = [l[:-2] for l in log]
+        key = (json.dumps(ops), r["outcome"], fault)
         nontriv = any(o[0] in ("W", "O") for o in ops)
         c.count(key, nontrivial=nontriv)
         c.cov["traces_validated_against_impl"] += 1
-        c.hist("fault:" + job["prog"]["fault"])
         if job["prog"].get("directed"):
-            c.hist("directed:nested-same-property-outer-stopped")
-        c.hist("outcome:" + r["outcome"].split(":")[0] + (":" + r["outcome"].split(":")[1] if ":" in r["outcome"] else ""))
+            c.hist("directed:" + job["prog"]["directed"])
+        c.hist("outcome:" + ":".join(r["outcome"].split(":")[:2]))
         c.hist("history-len<=10" if len(ops) <= 10 else "history-len>10")
         c.hist("overrides", sum(1 for o in ops if o[0] == "O"))
-        c.hist("scenario-starts", sum(1 for o in ops if o[0] == "Push"))
-        c.hist("scenario-stopped-from-outside", sum(1 for j in job["prog"]["subs"] if j.get("term_after")))
+        c.hist("overrides-from-behaviour-or-top-level", sum(1 for o in ops if o[0] == "O" and o[1] == 0))
+        c.hist("override-of-behavior", sum(1 for o in ops if o[0] == "O" and o[3] == 4))
+        c.hist("scenario-starts", sum(1 for o in ops if o[0] == "Start"))
+        c.hist("objects-created", sum(1 for o in ops if o[0] == "C"))
+        c.hist("global-writes", sum(1 for o in ops if o[0] in ("N", "NB")))
+        c.hist("parallel-invocations", sum(1 for l in log if l[0] == "Start" and sum(1 for x in l[-2] if x != 0) >= 1 and l[2] in l[-2] and
+                                           any(x > l[2] for x in l[-2])))
         # ---- oracles on the implementation
-        if r["after"] != r["before"] or not r["allprops_equal"]:
-            c.violation("scene-changed", "a property of a scene object reads differently after the simulation",
-                        dict(job=job, before=r["before"], after=r["after"], outcome=r["outcome"], diff=r.get("allprops_diff")))
-        va = r["veneer_after"]
-        if va != ref["veneer_after"]:
-            c.violation("veneer", "veneer global state not reset after the simulation", dict(job=job, got=va, fresh=ref["veneer_after"], outcome=r["outcome"]))
-        if "rerun_equal" in r and (not r["rerun_equal"] or not r["rerun_log_equal"] or r["rerun_outcome"] != r["outcome"] or r["after2"] != r["before"]):
+        sc = lambda t: [t[0], t[1], t[-1]]
+        if sc(r["after"]) != sc(r["before"]) or not r["allprops_equal"] or not r["allprops_equal3"] or sc(r["run3"]["after"]) != sc(r["before"]):
+            c.violation("scene-changed", "a property of a scene object (or a behaviour global) reads differently after the simulation",
+                        dict(job=job, before=r["before"], after=r["after"], after3=r["run3"]["after"], outcome=r["outcome"], diff=r.get("allprops_diff")))
+        for va in (r["veneer_after"], r["veneer_after3"]):
+            if va != state0:
+                c.violation("veneer", "interpreter global state not reset after the simulation",
+                            dict(job=job, diff=state_diff(va, state0), diff_json=json.dumps(state_diff(va, state0), sort_keys=True), outcome=r["outcome"]))
+                break
+        if not r["rerun_equal"] or not r["rerun_log_equal"] or r["rerun_outcome"] != r["outcome"] or sc(r["after2"]) != sc(r["before"]):
             c.violation("rerun", "re-running the same scene with the same seed gives a different result",
                         dict(job=job, outcome=r["outcome"], rerun=r["rerun_outcome"], equal=r["rerun_equal"], log_equal=r["rerun_log_equal"]))
-        # overrides undone: at every Pop the properties overridden by that scenario read their pre-override value -> checked by the model trace
-        # ---- model replay: Begin, history, Finish
-        def ints(s):
-            return [[int(v) for v in row] for row in s]
-        mops = [["Begin"]]
-        exp = [ints(r["before"])]
-        idxs = [0]
-        ok = True
-        depth = 1  # the top-level scenario
-        for l in log:
-            kind = l[0]
-            if kind in ("W", "O"):
-                if float(l[3]) != int(l[3]):
-                    ok = False
-                mops.append([kind, l[1], l[2], int(l[3])])
-            elif kind == "Push":
-                mops.append(["Push"])
-                depth += 1
-            elif kind == "Depth":
-                # the implementation reports how many scenarios are running after `do` returned:
-                # the ones that stopped were stopped innermost first
-                if l[1] >= depth:
-                    continue
-                while depth > l[1]:
-                    mops.append(["Pop"])
-                    depth -= 1
-            elif kind == "Fail":
-                continue
-            idxs.append(len(mops) - 1)
-            exp.append(ints(l[-1]))
-        mops.append(["Finish"])
-        idxs += [len(mops) - 1, len(mops)]
-        exp.append(ints(r["after"]))
-        exp.append(ints(r["after"]))
-        if ok:
-            nm = r["name"]
-            coq_cases.append((nm, coq_case(nm, ints(r["before"]), mops, exp, idxs)))
-            case_jobs[nm] = (job, mops, exp, r["outcome"])
-        c.sample(dict(program=job["src"][len(PRELUDE):], history=ops, outcome=r["outcome"]), limit=3)
+        # ---- model replay: Begin, history, Finish (first run and third run)
+        nm = r["name"]
+        m1 = to_model(log, r["before"], r["after"])
+        if m1 is None or not all_int(r["before"]) or not all_int(r["after"]):
+            c.hist("non-integral-history-skipped")
+            continue
+        mops, exp, idxs, spec_fail = m1
+        exp[0] = ints(r["before"][:-1]) + [[int(v) for v in r["gs"]]]
+        if spec_fail:
+            c.violation("override-not-undone", "after every scenario that overrode a property has ended it does not read its pre-override value",
+                        dict(job=job, outcome=r["outcome"], history=mops, **spec_fail))
+        defs.append(coq_bool(nm, "fixed", ints(r["before"]), r["gs"], mops, exp, idxs))
+        names.append(nm)
+        case_info[nm] = dict(job=job, history=mops, impl_snapshots=exp, outcome=r["outcome"], run=1, before=r["before"], idxs=idxs)
+        r3 = r["run3"]
+        m3 = to_model(r3["log"], r3["before"], r3["after"])
+        if m3 is not None and all_int(r3["after"]) and sc(r3["before"]) == sc(r["before"]):
+            mops3, exp3, idxs3, _ = m3
+            exp3[0] = exp[0]
+            defs.append(coq_bool(nm + "_r3", "fixed", ints(r["before"]), r["gs"], mops3, exp3, idxs3))
+            names.append(nm + "_r3")
+            # the same third run under the model variant whose top-level table survives the earlier runs
+            allops = mops + mops + mops3
+            off = 2 * len(mops)
+            alt = coq_bool(nm + "_r3s", "stale_v", ints(r["before"]), r["gs"], allops, exp3, [i + off for i in idxs3])
+            case_info[nm + "_r3"] = dict(job=job, history=mops3, impl_snapshots=exp3, outcome=r3["outcome"], run=3, alt=alt, before=r["before"], idxs=idxs3,
+                                         earlier_history=mops)
+        c.sample(dict(program=job["src"][len(G.PRELUDE):], history=ops, outcome=r["outcome"]), limit=3)
     # ---- kernel evaluates the model on every logged history
-    header = "From Coq Require Import ZArith List.\nFrom Scenic Require Import C14.SimState.\nImport ListNotations.\nOpen Scope Z_scope.\nDefinition select (idx:list nat) (l:list (list (list Z))) := map (fun i => nth i l []) idx.\n"
-    shards = [coq_cases[i:i + 200] for i in range(0, len(coq_cases), 200)]
+    shards = [list(range(i, min(i + 150, len(names)))) for i in range(0, len(names), 150)]
 
     def run_shard(k_sh):
         k, sh = k_sh
-        return k, sh, common.run_coq_cases(f"C14_cases_{k}", header + "\n".join(t for _, t in sh))
+        return sh, eval_bools(f"C14_cases_{k}", [defs[i] for i in sh], [names[i] for i in sh])
 
-    with cf.ThreadPoolExecutor(min(8, max(1, len(shards)))) as ex:
-        for k, sh, (ok, out) in ex.map(run_shard, enumerate(shards)):
+    failing = []
+    with cf.ThreadPoolExecutor(WORKERS) as ex:
+        for sh, (vals, out) in ex.map(run_shard, enumerate(shards)):
+            if vals is None:
+                c.violation("harness", "coqc failed on generated cases", dict(out=out[-1500:]), no_input=True)
+                continue
             c.cov["disagreements_checked"] += len(sh)
-            if not ok:
-                # find the failing case(s) one by one
-                for nm, t in sh:
-                    ok1, out1 = common.run_coq_cases(f"C14_case_{nm}", header + t)
-                    if not ok1:
-                        job, mops, exp, outcome = case_jobs[nm]
-                        ok2, out2 = common.run_coq_cases(f"C14_eval_{nm}", header + t.split("Lemma")[0] +
-                                                         f"Eval vm_compute in trace fixed ops_{nm} (init (fun o p => nth p (nth o {json.dumps(exp[0]).replace(',', ';')} []) 0)) 2 4.\n")
-                        c.violation("correspondence", "model and implementation disagree on what objects read along a logged history",
-                                    dict(job=job, history=mops, impl_snapshots=exp, outcome=outcome, model=out2[-1500:]))
-                        break
-    c.cov["programs"] = len(case_jobs)
+            failing += [n for n, v in vals.items() if not v]
+    # cases of a third run that the repaired model rejects: does the stale-table variant explain them?
+    alts = [n for n in failing if case_info[n].get("alt")]
+    explained = {}
+    if alts:
+        vals, out = eval_bools("C14_alt", [case_info[n]["alt"] for n in alts], [n + "s" for n in alts])
+        if vals:
+            explained = {n: vals[n + "s"] for n in alts}
+    for n in failing:
+        info = case_info[n]
+        rep = dict(job=info["job"], history=info["history"], impl_snapshots=info["impl_snapshots"], outcome=info["outcome"], run=info["run"], before=info["before"], idxs=info["idxs"],
+                   explained_by="stale_top" if explained.get(n) else None)
+        if info.get("earlier_history"):
+            rep["earlier_history"] = info["earlier_history"]
+        c.violation("correspondence", "model and implementation disagree on what objects / globals read along a logged history", rep)
+    c.cov["programs"] = len(case_info)
     c.assumptions += [
-        "model = hand-written Gallina (coq/C14/SimState.v); the history fed to it is the one the real run logged",
-        "parallel sibling sub-scenarios (do A(), B()) and overrides issued from behaviors are outside the model",
+        "model = hand-written Gallina (coq/C14/SimState.v); the history fed to it is the one the real run logged; the order in which "
+        "scenarios found stopped between two log entries were stopped is the model's (roots of the stopped set oldest first; newest first at the end)",
+        "closure cells of requirement closures and per-object proxy bookkeeping (which objects have a proxy) are outside the model",
         "CPython semantics of try/finally and generators",
     ]
     c.finish()
+
+
+def shorten(x):
+    s = json.dumps(x)
+    return x if len(s) < 3000 else s[:3000]
+
+
+def state_diff(a, b):
+    if not isinstance(a, dict) or not isinstance(b, dict):
+        return [repr(a)[:300], repr(b)[:300]]
+    d = {}
+    for k in sorted(set(a) | set(b)):
+        if a.get(k) != b.get(k):
+            d[k] = state_diff(a.get(k), b.get(k)) if isinstance(a.get(k), dict) and isinstance(b.get(k), dict) else [a.get(k), b.get(k)]
+    return d
 
 
 if __name__ == "__main__":
